@@ -30,6 +30,9 @@ type SchedSpec struct {
 	NoSchedule bool     `json:"noSchedule,omitempty"`
 	NBOff      *int64   `json:"nbOff,omitempty"` // notBefore, seconds relative to case start
 	NAOff      *int64   `json:"naOff,omitempty"`
+	// LUOff: an explicit spec.schedule.lastUpdated, seconds relative to the case
+	// start (admission keeps an explicit value that lies in the future)
+	LUOff *int64 `json:"luOff,omitempty"`
 }
 
 type CronOp struct {
@@ -49,9 +52,19 @@ type CronCase struct {
 	Ops   []CronOp   `json:"ops"`
 }
 
+// nsName splits a generated name: "other/a" lives in namespace "other", a bare
+// name in "ns".
+func nsName(n string) (string, string) {
+	if i := strings.IndexByte(n, '/'); i >= 0 {
+		return n[:i], n[i+1:]
+	}
+	return "ns", n
+}
+
 func jcFromSched(name string, s *SchedSpec, start time.Time) *execution.JobConfig {
+	ns, name := nsName(name)
 	jc := &execution.JobConfig{
-		ObjectMeta: metav1.ObjectMeta{Name: name, Namespace: "ns"},
+		ObjectMeta: metav1.ObjectMeta{Name: name, Namespace: ns},
 		Spec: execution.JobConfigSpec{
 			Template: execution.JobTemplateSpec{Spec: execution.JobTemplate{
 				TaskTemplate: execution.TaskTemplate{Pod: &execution.PodTemplateSpec{Spec: corev1.PodSpec{Containers: []corev1.Container{{Name: "main", Image: "alpine"}}}}},
@@ -77,6 +90,9 @@ func applySched(jc *execution.JobConfig, s *SchedSpec, start time.Time) {
 		jc.Spec.Schedule.Cron.Expression = s.Exprs[0]
 	} else {
 		jc.Spec.Schedule.Cron.Expressions = append([]string(nil), s.Exprs...)
+	}
+	if s.LUOff != nil {
+		jc.Spec.Schedule.LastUpdated = mt(start.Add(time.Duration(*s.LUOff) * time.Second))
 	}
 	if s.NBOff != nil || s.NAOff != nil {
 		jc.Spec.Schedule.Constraints = &execution.ScheduleContraints{}
@@ -196,6 +212,16 @@ func genNames(t *rapid.T, n int) []string {
 		seen[s] = true
 		out = append(out, s)
 	}
+	// the same bare name in a second namespace: everything keyed by name alone would collide
+	for i := 1; i < len(out); i++ {
+		if rapid.IntRange(0, 3).Draw(t, "otherNS") == 0 {
+			_, bare := nsName(out[rapid.IntRange(0, i-1).Draw(t, "sameAs")])
+			if c := "other/" + bare; !seen[c] {
+				seen[c] = true
+				out[i] = c
+			}
+		}
+	}
 	return out
 }
 
@@ -219,6 +245,9 @@ func genCronCase(mode string, maxJCs, maxTicks int) func(t *rapid.T) CronCase {
 			}
 			c.Pre = append(c.Pre, CronOp{Kind: "create", JC: i, Sched: genSched(t, c.Cfg, true, denseBias)})
 			created[i] = true
+			if mode == "restart" && rapid.IntRange(0, 3).Draw(t, "explicitLU?") == 0 {
+				c.Pre[len(c.Pre)-1].Sched.LUOff = pointer.Int64(int64(rapid.SampledFrom([]int{60, 120, 300, 600, 3600, 7200, 90000, 200000}).Draw(t, "luOff")))
+			}
 			if mode == "restart" {
 				if rapid.Bool().Draw(t, "age?") {
 					c.Pre = append(c.Pre, CronOp{Kind: "advance", AdvMs: int64(rapid.SampledFrom([]int{1, 59, 60, 299, 300, 301, 3600, 86400}).Draw(t, "age")) * 1000})
@@ -532,7 +561,7 @@ func fmtTimes(ts []time.Time) string {
 
 func (r *cronRun) apply(op CronOp, prop string) *pbt.Violation {
 	w := r.w
-	key := func(i int) string { return "ns/" + r.c.Names[i] }
+	key := func(i int) string { ns, n := nsName(r.c.Names[i]); return ns + "/" + n }
 	switch op.Kind {
 	case "advance":
 		w.Advance(time.Duration(op.AdvMs) * time.Millisecond)
@@ -561,7 +590,8 @@ func (r *cronRun) apply(op CronOp, prop string) *pbt.Violation {
 			jc.Spec.Template.Spec.MaxAttempts = pointer.Int64(int64(len(w.API.Ledger)%5 + 1))
 		})
 	case "delete":
-		_ = w.UserDelete(sim.ResJobConfigs, "ns", r.c.Names[op.JC])
+		dns, dn := nsName(r.c.Names[op.JC])
+		_ = w.UserDelete(sim.ResJobConfigs, dns, dn)
 	case "setStatus":
 		o := w.API.Get(sim.ResJobConfigs, key(op.JC))
 		if o != nil {
